@@ -22,7 +22,7 @@
     sha <hex>                              -> <hex digest>
     histl <Link variant> <strict 0|1> <refuse 0|1> <lim> <nops> op*   -> like hist, with Resolve's read limit `lim`
         (strict = C08-F28.patch) and negative-size Puts (refuse = C08-F29.patch); further ops:
-        putneg <d> <script> | edit <name> <hex>
+        putneg <d> <script> | edit <name> <hex> | session <d> <size> <nputs> (<start> <stop> <cd> <script>)*
     readsum <strict> <lim> <hex>           -> <data read> <digest> | err:toolarge      (readAndSum on a file holding <hex>)
 -/
 import OllamaVerif.Model.BlobCache
@@ -56,6 +56,10 @@ def pOp : TP Op := do
     pure (.chunk d size a b cd s)
   | "putneg" => do let d ← hex; let s ← pScript; pure (.putNeg d s)
   | "edit" => do let n ← hex; let b ← hex; pure (.edit n b)
+  | "session" => do
+    let d ← hex; let size ← nat
+    let puts ← listOf (do let a ← nat; let b ← nat; let cd ← hex; let s ← pScript; pure (CPut.mk a b cd s))
+    pure (.session d size puts)
   | _ => failure
 
 def showRes : Res → String
@@ -79,6 +83,7 @@ def showOut : Out → String
   | .pair r none => s!"{showRes r}/nohook"
   | .pair r (some (some dg, _)) => s!"{showRes r}/dig:{hexOrDash dg}"
   | .pair r (some (none, e)) => s!"{showRes r}/{showRes e}"
+  | .many rs => if rs.isEmpty then "none" else joinWith "+" (rs.map showRes)
 
 def showSt : FileSt → String
   | none => "absent"
@@ -98,6 +103,7 @@ def opDigests : Op → List Digest
   | .linkR _ d => [d]
   | .chunk d _ _ _ _ _ => [d]
   | .putNeg d _ => [d]
+  | .session d _ _ => [d]
   | _ => []
 
 def outDigests : Out → List Digest
